@@ -10,6 +10,10 @@ for m in sorted(glob.glob('/verif/seeded/*/meta.json')):
     caught = ', '.join(c.get('caught_by', [])) or '— (missed)'
     if d.get('obsolete') and not c.get('caught_by'):
         caught = 'n/a — no longer breaks the property (see meta.json: obsolete)'
+    if d.get('outside_domain') and not c.get('caught_by'):
+        caught = 'n/a — outside the property\'s domain (see meta.json: outside_domain)'
+    if d.get('first_pass'):
+        ran += ' [first pass: %s]' % d['first_pass'].split(' (')[0]
     rows.append((c.get('name', os.path.basename(os.path.dirname(m))), d.get('property', ''), caught, ran,
                  d.get('needs_to_manifest', '').replace('\n', ' ')[:230]))
 with open('/verif/seeded/RESULTS.md', 'w') as f:
@@ -17,8 +21,8 @@ with open('/verif/seeded/RESULTS.md', 'w') as f:
     f.write('Every change below was written by a sub-agent that saw only the text of one property and a scratch worktree. It is kept only after\n'
             'confirmation here (tools/seedeval.py): the patch applies, the library builds, the unedited pinned suite passes with it, the demonstration\n'
             'fails with it and passes without it. The checks were then run (quick tier, seed 1) on /repo with the patch applied, and the patch undone.\n'
-            'Patches are relative to the /repo HEAD at the time of seeding (first wave, -a/-b: 5da832f; second wave, -c/-d: fa07ba2); later repairs in /repo may\n'
-            'touch the same lines.\n\n')
+            'Patches are relative to the /repo HEAD at the time of seeding (first wave, -a/-b: 5da832f; second wave, -c/-d: fa07ba2; third wave, -e/-f: 0530883); seven patches whose context\n'
+            'lines were changed by later repairs have been rebased (meta.json: rebased; the original is kept as patch.orig.diff).\n\n')
     f.write('| change | property | caught by | checks run | needs, to manifest |\n|---|---|---|---|---|\n')
     for r in rows:
         f.write('| %s | %s | %s | %s | %s |\n' % r)
